@@ -3,6 +3,7 @@ package checks
 import (
 	"bytes"
 	"fmt"
+	"github.com/contiv/libOpenflow/ofbase"
 	"net"
 	"runtime"
 	"sort"
@@ -241,6 +242,10 @@ var c14Switch = rapid.Custom(func(rt *rapid.T) gen.SwitchMsg {
 	return g.SwitchMessage()
 })
 
+const c14Kinds = 5
+
+var c14Hist = rapid.Custom(func(rt *rapid.T) []c19op { return c19History(rt) })
+
 // c14Program runs program (kind, seed) start to finish on the calling goroutine.
 func c14Program(kind int, seed int) (o c14out) {
 	defer func() {
@@ -280,6 +285,17 @@ func c14Program(kind int, seed int) (o c14out) {
 		o.Dump = obs.Deep(m)
 		if m != nil {
 			o.Bytes2, _ = m.MarshalBinary()
+		}
+		// and a flow-removed whose match carries a field the library knows of but has no decoder for (in_phy_port,
+		// vlan_pcp, ip_ecn, mpls_tc, ...) or does not know at all: Parse answers with an error, from any goroutine
+		fr := make([]byte, 64)
+		fr[0], fr[1], fr[3] = 4, 11, 64
+		fr[48+1], fr[48+3] = 1, 12
+		fr[52] = 0x80
+		fr[54] = []byte{1, 7, 9, 35, 37, 39, 50, 61}[seed%8] << 1
+		fr[55] = 4
+		if _, perr := of.Parse(fr); perr != nil {
+			o.Dump += " undecodable-field: " + perr.Error()
 		}
 	case 2: // registry lookups + generic builder + ct_state builder + packet decode
 		sm := c14Switch.Example(seed)
@@ -326,6 +342,32 @@ func c14Program(kind int, seed int) (o c14out) {
 			}
 		}
 		o.Bytes = bytes.Join(parts, nil)
+	case 4: // the base encoder / decoder pair: a history of typed writes, encoded and read back
+		ops := c14Hist.Example(seed)
+		c19Model(ops)
+		o.Bytes = c19Encode(ops)
+		d := ofbase.NewDecoder(append([]byte{}, o.Bytes...))
+		var vals []string
+		for _, op := range ops {
+			switch op.kind {
+			case 0, 7:
+				vals = append(vals, fmt.Sprint(d.ReadUint8()))
+			case 1:
+				vals = append(vals, fmt.Sprint(d.ReadUint16()))
+			case 2:
+				vals = append(vals, fmt.Sprint(d.ReadUint32()))
+			case 3:
+				vals = append(vals, fmt.Sprint(d.ReadUint64()))
+			case 4:
+				v := d.ReadUint128()
+				vals = append(vals, fmt.Sprint(v.Hi, v.Lo))
+			case 5:
+				vals = append(vals, fmt.Sprintf("%x", d.Read(len(op.raw))))
+			case 6:
+				d.SkipAlign()
+			}
+		}
+		o.Dump = fmt.Sprint(vals)
 	case 3: // DHCP: a short read (fixed part only) followed by a full read of another message, as a caller peeking at the header does
 		m1, m2 := c14DHCP.Example(seed), c14DHCP.Example(seed+1)
 		short := make([]byte, 240)
@@ -380,7 +422,7 @@ func TestC14Cold(t *testing.T) {
 			defer wg.Done()
 			<-start
 			for i := 0; i < per; i++ {
-				outs[g] = append(outs[g], c14Program((g+i)%4, base+g*131+i))
+				outs[g] = append(outs[g], c14Program((g+i)%c14Kinds, base+g*131+i))
 			}
 		}(g)
 	}
@@ -389,7 +431,7 @@ func TestC14Cold(t *testing.T) {
 	for g := 0; g < G; g++ {
 		for i := 0; i < per; i++ {
 			c.Eval()
-			kind, seed := (g+i)%4, base+g*131+i
+			kind, seed := (g+i)%c14Kinds, base+g*131+i
 			ref := c14Program(kind, seed)
 			got := outs[g][i]
 			if !bytes.Equal(ref.Bytes, got.Bytes) || !bytes.Equal(ref.Bytes2, got.Bytes2) || ref.Dump != got.Dump || ref.Err != got.Err {
@@ -425,7 +467,7 @@ func TestC14Batch(t *testing.T) {
 		var script []string
 		for gi := range progs {
 			for j := 0; j < per; j++ {
-				p := prog{gen.Pick(rt, "kind", 4), rapid.IntRange(1, 1<<30).Draw(rt, "seed")}
+				p := prog{gen.Pick(rt, "kind", c14Kinds), rapid.IntRange(1, 1<<30).Draw(rt, "seed")}
 				progs[gi] = append(progs[gi], p)
 				script = append(script, fmt.Sprintf("g%d:%d/%d", gi, p.kind, p.seed))
 			}
